@@ -177,3 +177,51 @@ func TestModelRoundTrip(t *testing.T) {
 		}
 	}
 }
+
+// The exact dyadic rewrite agrees with IEEE evaluation of the original float term.
+func TestExactFPAgreesWithFloatEvaluation(t *testing.T) {
+	rnd := rand.New(rand.NewSource(7))
+	x, y, z := Var("x", 64), Var("y", 64), Var("z", 64)
+	ia := NewIntervals(func(string) (float64, float64, bool) { return -4096, 1 << 20, true })
+	fx, fy, fz := FDiv(FFromS(x), FPC(8)), FDiv(FFromS(y), FPC(8)), FDiv(FFromS(z), FPC(0.25))
+	sys := FSub(FSub(fx, fy), fz)
+	clamp := Ite(FLt(sys, FPC(0)), FPC(0), sys)
+	clamp = Ite(FLt(clamp, FPC(2.5)), FPC(2.5), clamp)
+	roots := []*Term{
+		FToS(FMul(clamp, FPC(1000)), 64),
+		FToS(FRound(FMul(sys, FPC(0.375)), RTP), 64),
+		FToS(FRound(FMul(sys, FPC(0.375)), RTN), 32),
+		FToS(FMul(sys, FPC(0.375)), 64),
+		FLt(FAdd(fx, fz), FMul(fy, FPC(3))),
+		FLe(FAbs(sys), FMax(fx, FNeg(fy))),
+		FEq(FMin(fx, fy), fz),
+	}
+	for k, r := range roots {
+		q := ia.ExactFP(r)
+		if q == nil {
+			t.Fatalf("root %d: rewrite does not apply", k)
+		}
+		for n := 0; n < 3000; n++ {
+			m := Model{}
+			for _, v := range []string{"x", "y", "z"} {
+				m[v] = Value{Lo: uint64(rnd.Int63n(1<<20+4096) - 4096)}
+				if n%7 == 0 {
+					m[v] = Value{Lo: uint64(int64(rnd.Intn(40) - 20))}
+				}
+			}
+			e := NewEvaluator(m)
+			a, b := e.Eval(r), e.Eval(q)
+			if e.Failed || a != b {
+				t.Fatalf("root %d model %v: float %v exact %v", k, m, a, b)
+			}
+		}
+	}
+	// not dyadic: division by 1000, and magnitudes beyond 2^53
+	if ia.ExactFP(FLt(FDiv(FFromS(x), FPC(1000)), fy)) != nil {
+		t.Fatal("division by 1000 must not be rewritten")
+	}
+	big := NewIntervals(func(string) (float64, float64, bool) { return 0, 1 << 62, true })
+	if big.ExactFP(FLt(FFromS(x), FFromS(y))) != nil {
+		t.Fatal("values beyond 2^53 must not be rewritten")
+	}
+}
